@@ -313,3 +313,9 @@ def assert_stmt(a):
 
 def global_const(a):
     return a % K + len(TABLE)
+
+
+def or_chain_mixed(bflag, bother, a):
+    x = bflag or bother or a
+    y = bflag and bother and a
+    return (x, y, 1 if x else 0, 1 if y else 0)
